@@ -28,6 +28,7 @@ PROPERTY = "C14"
 FUNCTIONS = ["CellWrapper._wrap_columns (E2) / fit/_init_rows/_wrap_column/_refresh_column_length (E1)", "Table.render/_get_cell_wrapper/_render_rows", "BorderUtil.draw_row/draw_border",
              "TableStyle.ascii/solid/borderless/compact", "utils.string.get_string_length/get_max_word_length/get_max_line_length"]
 PART = {}
+EXTRA_BOUNDS = 'also: table_edge: EVERY terminal width in [natural-12, natural+3] x indentation 0..2 x header on/off for 2- and 3-column tables in 4 styles; decorated (ANSI) output for 4 style/width pairs; a second rendering after set_header_row; inside the region of known finding C14-tagged-cell-wrapped success, width bound and non-mutation stay checked.'
 BOUNDS = {"quick": "E2: 2 columns with natural lengths in [0,255] and 3 columns with lengths in [0,31], n <= max total width <= the same limit, total > max; E1: 2x2 and 1x3 tables, cells from a 5-text menu (empty, short, three long words, one 25-character word, style-tagged), "
                    "terminal widths {20, 28, 40, 56} (2x2) / {24, 36, 50} (1x3), indentation {0, 4}, header on/off, 3 alignments, 4 styles",
           "thorough": "E2: n = 2 (lengths <= 1500), 3 (<= 255), 4 (<= 31); E1: 8 widths in 20..72, all 9 alignment pairs, 7 widths for 1x3 tables with all alignments"}
